@@ -405,6 +405,73 @@ def rule_r7(ctx) -> List[R.Inst]:
     return insts
 
 
+def rule_r9(ctx) -> List[R.Inst]:
+    """row r of an n-row measure sits at beat 4r/n: slicing into METRONOME equal parts, fraction inside the part, Snap arguments"""
+    from .. import sym
+    M = ctx.M
+    rid = "C02.R9"
+    fn = M.fn(READ_NOTES)
+    file = M.mods[fn.mod].rel
+    insts = []
+    loops = [n for n in ast.walk(fn.node) if isinstance(n, ast.For)]
+    mloop = next((l for l in loops if isinstance(l.iter, ast.Call) and call_name_(l.iter) == "enumerate" and
+                  isinstance(l.target, ast.Tuple) and unparse(l.target.elts[0]) == "measure"), None)
+    bloop = next((l for l in loops if isinstance(l.iter, ast.Call) and call_name_(l.iter) == "range" and unparse(l.target) == "beat"), None)
+    if mloop is None or bloop is None:
+        return [R.undec(rid, "row-position", file, fn.node.lineno, "measure / beat loops not found")]
+    mstr = unparse(mloop.target.elts[1])
+    # (a) the beat loop covers METRONOME parts
+    if unparse(bloop.iter.args[0]) == "METRONOME" and len(bloop.iter.args) == 1:
+        insts.append(R.ok(rid, "beat-parts", file, bloop.lineno, idiom="for beat in range(METRONOME)"))
+    else:
+        insts.append(R.viol(rid, "beat-parts", file, bloop.lineno, "a measure is split into METRONOME (4) beats, numbered from 0",
+                            construct=unparse(bloop.iter)))
+    # (b) slice bounds of the beat's rows
+    sl = [n for n in ast.walk(bloop) if isinstance(n, ast.Assign) and unparse(n.targets[0]) == "beat_str" and
+          isinstance(n.value, ast.Subscript) and isinstance(n.value.slice, ast.Slice)]
+    if len(sl) != 1:
+        insts.append(R.undec(rid, "beat-slice", file, bloop.lineno, "slice of the beat's rows not found"))
+    else:
+        lo, hi = sl[0].value.slice.lower, sl[0].value.slice.upper
+        lf = lambda n: ("N" if unparse(n) == f"len({mstr})" else ("M4" if unparse(n) == "METRONOME" else None))   # noqa: E731
+        TR = ("float", "int")
+        good = lo is not None and hi is not None and unparse(sl[0].value.value) == mstr and \
+            sym.canon(lo, lf, TR).same(sym.parse("beat * N / M4")) and sym.canon(hi, lf, TR).same(sym.parse("(beat + 1) * N / M4"))
+        if good:
+            insts.append(R.ok(rid, "beat-slice", file, sl[0].lineno, idiom="rows [beat*n/4, (beat+1)*n/4) of the measure"))
+        else:
+            insts.append(R.viol(rid, "beat-slice", file, sl[0].lineno,
+                                "beat b of an n-row measure owns rows [b*n/4, (b+1)*n/4); other bounds drop or double rows",
+                                construct=unparse(sl[0].value)))
+    # (c) fraction inside the beat and the Snap
+    sn = [n for n in ast.walk(bloop) if isinstance(n, ast.Assign) and unparse(n.targets[0]) == "snap" and isinstance(n.value, ast.Call)]
+    sloop = next((l for l in ast.walk(bloop) if isinstance(l, ast.For) and isinstance(l.iter, ast.Call) and
+                  call_name_(l.iter) == "enumerate" and unparse(l.iter.args[0]) == "beat_str"), None)
+    if len(sn) == 1 and sloop is not None and len(sloop.iter.args) == 1 and not sloop.iter.keywords:
+        lf2 = lambda n: ("K" if unparse(n) == "len(beat_str)" else None)   # noqa: E731
+        if sym.canon(sn[0].value, lf2).same(sym.parse("snap / K")):
+            insts.append(R.ok(rid, "row-fraction", file, sn[0].lineno, idiom="row i of the beat's k rows sits at i/k of the beat"))
+        else:
+            insts.append(R.viol(rid, "row-fraction", file, sn[0].lineno, "row i of the beat's k rows sits at i/k of the beat (i from 0)",
+                                construct=unparse(sn[0].value)))
+    else:
+        insts.append(R.viol(rid, "row-fraction", file, bloop.lineno, "rows of a beat are numbered from 0 and placed at i/k",
+                            construct=unparse(sloop.iter) if sloop is not None else "no row loop") if sloop is not None and
+                     (len(sloop.iter.args) > 1 or sloop.iter.keywords) else
+                     R.undec(rid, "row-fraction", file, bloop.lineno, "row fraction not recognised"))
+    so = [n for n in ast.walk(bloop) if isinstance(n, ast.Call) and call_name_(n) == "Snap"]
+    if len(so) == 1 and len(so[0].args) == 3:
+        a0, a1, a2 = so[0].args
+        if unparse(a0) == "measure" and sym.canon(a1).same(sym.parse("beat + snap")) and unparse(a2) == "METRONOME":
+            insts.append(R.ok(rid, "snap-args", file, so[0].lineno, idiom="Snap(measure, beat + fraction, METRONOME)"))
+        else:
+            insts.append(R.viol(rid, "snap-args", file, so[0].lineno, "an object's position is (measure, beat + fraction) in 4/4",
+                                construct=unparse(so[0])))
+    else:
+        insts.append(R.undec(rid, "snap-args", file, bloop.lineno, "Snap construction not recognised"))
+    return insts
+
+
 def rule_r8(ctx) -> List[R.Inst]:
     from .common import fresh_default_insts
     return fresh_default_insts(ctx, "C02.R8")
@@ -461,6 +528,7 @@ SPECS = [
     RuleSpec("C02.R5", rule_r5, 3, "A8", "every chart of the file is returned"),
     RuleSpec("C02.R6", rule_r6, 2, "A8", "no None placeholder reaches a dereference"),
     RuleSpec("C02.R7", rule_r7, 2, "A5", "expanders number columns by the per-column buffer index"),
+    RuleSpec("C02.R9", rule_r9, 4, "A7", "row position shapes: beat slice bounds, fraction inside the beat, Snap arguments"),
     RuleSpec("C02.R8", rule_r8, 6, "A3", "every chart gets its own list objects (fresh defaults per instance)"),
     RuleSpec("C02.D", rule_dep, 1, "M0", "rules of the shared code (timing engine, list classes, stacker) that the operations of this property reach"),
 ]
